@@ -48,6 +48,29 @@ Definition contains (pat s : string) : bool :=
 
 Definition str_eqb := String.eqb.
 
+(** [splitn(2, [' ', '\t'])]: cut at the first blank or TAB: (before, after) *)
+Definition is_blank_or_tab (a : ascii) : bool := Ascii.eqb a " " || Ascii.eqb a (ascii_of_nat 9).
+
+Fixpoint split_blank (s : string) : option (string * string) :=
+  match s with
+  | EmptyString => None
+  | String a r =>
+      if is_blank_or_tab a then Some (EmptyString, r)
+      else match split_blank r with
+           | Some (b, t) => Some (String a b, t)
+           | None => None
+           end
+  end.
+
+(** [s.len() - s.trim_end_matches('\\').len()]: the length of the run of backslashes that ends
+    [s], counted from the left ([run] = length of the run that ends the text read so far) *)
+Fixpoint trailing_backslashes_from (run : nat) (s : string) : nat :=
+  match s with
+  | EmptyString => run
+  | String a r => trailing_backslashes_from (if Ascii.eqb a "\" then S run else O) r
+  end.
+Definition trailing_backslashes (s : string) : nat := trailing_backslashes_from O s.
+
 (** ** macros *)
 Inductive macro_kind :=
 | MObj (value : string)
@@ -409,7 +432,8 @@ Inductive scan_res :=
 | ScanOk (out : string) (insert_it : bool) (st : scan_state)
 | ScanUnterminated (out : string) (insert_it : bool) (st : scan_state).
 
-(** find the closing quote: [s] starts just after the opening quote; returns the literal body *)
+(** find the closing quote: [s] starts just after the opening quote; returns the literal body.
+    A quote closes the literal unless it is escaped: an odd number of backslashes in front of it *)
 Fixpoint find_close (fuel : nat) (s : string) (acc_rev : string) : option (string * string) :=
   match fuel with
   | O => None
@@ -417,7 +441,7 @@ Fixpoint find_close (fuel : nat) (s : string) (acc_rev : string) : option (strin
       match split_once """" s with
       | None => None
       | Some (lft, rest) =>
-          if negb (ends_with "\" lft) || ends_with "\\" lft
+          if Nat.even (trailing_backslashes lft)
           then Some (rev_string acc_rev ++ lft, rest)
           else find_close f rest (rev_string (lft ++ """") ++ acc_rev)
       end
@@ -452,7 +476,7 @@ Fixpoint scan_loop (fuel : nat) (asm : bool) (remaining out : string) (insert_it
                                 (mkScan true (sc_next_lit st) (sc_lits st))
           | None => ScanOk out' ins' st
           end in
-        if negb (starts_with "#include" s2) && negb asm then
+        if negb (starts_with "#include" (trim_start s2)) && negb asm then
           match split_once """" s2 with
           | Some (lft, _) =>
               let after_quote := string_drop (S (String.length lft)) remaining in
@@ -496,10 +520,11 @@ Record pstate := mkP {
 
 Inductive presult := POk (p : pstate) | PErr (e : cpp_error).
 
-(** splits "name rest": the first space-separated word and the trimmed non-empty remainder *)
+(** splits "name rest": the first word (up to the first blank or TAB) and the trimmed non-empty
+    remainder *)
 Definition directive_parts (substr : string) : string * option string :=
   let s := before "//" substr in
-  match split_once " " s with
+  match split_blank s with
   | Some (w, r) => let r' := trim r in (w, if String.eqb r' "" then None else Some r')
   | None => (s, None)
   end.
